@@ -162,11 +162,12 @@ structure SOpts where
   format : Bool := true
   newline : Str := [10]
   indent : Str := [9]
+  scope : Option Str := none          -- config.context['name'] when it is one of the `@@…` scopes that only filter
 
 /-! ### color.py / frac -/
 def natToStr (n : Nat) : Str := (toString n).toList.map Char.toNat
 def hexLower (n : Nat) : Str := (Nat.toDigits 16 n).map Char.toNat
-def toHex (n : Nat) : Str := let h := hexLower n; h ++ List.replicate (2 - h.length) 48        -- sic: ljust
+def toHex (n : Nat) : Str := let h := hexLower n; List.replicate (2 - h.length) 48 ++ h        -- rjust(2, "0")
 def stripZeros (s : Str) : Str := (s.reverse.dropWhile (· == 48)).reverse
 /-- `frac` on a raw decimal text with at most `digits` fraction digits; none = outside the exact fragment -/
 def fracRaw (raw : Str) (digits : Nat) : Option Str :=
@@ -257,7 +258,7 @@ def wrapWithField (o : SOpts) : Nat → List VItem → Nat → Except Err (List 
           | some c => pure (out ++ [mkField c i], i + 1)
           | none => .error (.internal "unmodelled")
         | .literal s => pure (out ++ [mkField s i], i + 1)
-        | .number .. => .error (.internal "TypeError")                         -- ''.join((float, str))
+        | .number raw unit => pure (out ++ [mkField (raw ++ unit) i], i + 1)      -- ''.join((v.raw_value, v.unit))
         | .string s single => let q : Str := if single then [39] else [34]; pure (out ++ [mkField (q ++ s ++ q) i], i + 1)
         | _ => pure (out ++ [it], i)
       | .fn name args => do
@@ -323,6 +324,11 @@ def resolveNumeric (o : SOpts) (name : Option Str) (vals : List (List VItem)) : 
       | _ => it
     | other => other
 
+def scopeOK (o : SOpts) (s : Snippet) : Bool :=
+  if o.scope == some (lit "@@section") then !s.isProperty
+  else if o.scope == some (lit "@@property") then s.isProperty
+  else true
+
 def resolveNode (sn : Array Snippet) (o : SOpts) (node : Node) : Except Err Node := do
   -- gradient
   let gfn : Option (List (List VItem)) := match node.value with
@@ -336,9 +342,12 @@ def resolveNode (sn : Array Snippet) (o : SOpts) (node : Node) : Except Err Node
       match node.name with
       | some nm =>
         if nm.isEmpty then pure node else
-        match findBest nm (sn.toList.map (·.key)) (0, 1) true with
+        -- `get_snippets_for_scope`: `@@section` keeps raw snippets only, `@@property` property snippets only
+        let cands := sn.toList.zipIdx.filter (fun p => scopeOK o p.1)
+        match findBest nm (cands.map (·.1.key)) (0, 1) true with
         | none => pure node
-        | some si =>
+        | some ci =>
+          let si := (cands.getD ci (default, 0)).2
           let s := sn[si]!
           let n0 := { node with snippet := some (some si) }
           if s.isProperty then
@@ -396,14 +405,20 @@ def outputValue (op : SOpts) : Nat → List VItem → Out → Except Err Out
   | fuel+1, items, o => do
     let mut out := o
     let mut prevEnd : Option Int := some (-1)
+    let mut prevIsField := false
     let mut i := 0
     for it in items do
       let isFieldAdj := match it with
         | .tok t => (match t.tok with | .field .. => startOf t == prevEnd | _ => false)
         | _ => false
-      if i != 0 && !isFieldAdj then out := out.push [32]
+      -- `${bar}foo`: a token with a real position that starts where the previous field ended
+      let afterField := match it with
+        | .tok t => prevIsField && (startOf t).isSome && startOf t == prevEnd
+        | _ => false
+      if i != 0 && !isFieldAdj && !afterField then out := out.push [32]
       out ← outputToken op fuel it out
       prevEnd := match it with | .tok t => endOf t | .fn .. => some (-1)
+      prevIsField := match it with | .tok t => (match t.tok with | .field .. => true | _ => false) | _ => false
       i := i + 1
     return out
 def outputToken (op : SOpts) : Nat → VItem → Out → Except Err Out
@@ -453,8 +468,9 @@ def cssProperty (op : SOpts) (n : Node) (o : Out) : Except Err Out := do
       out := out.push (lit "!important")
     return out
 
-def expandStylesheet (abbr : Str) (tbl : List (Str × Str)) (op : SOpts) : Except Err Str := do
-  let sn ← convertSnippets tbl
+/-- `expand` for a stylesheet abbreviation with the snippet table already converted (`convert_snippets` is what the optional
+    `cache` of the implementation stores) -/
+def expandStylesheetPre (abbr : Str) (sn : Array Snippet) (op : SOpts) : Except Err Str := do
   let props ← parse abbr false
   let nodes ← props.mapM (fun p => resolveNode sn op { name := p.name, value := p.value, important := p.important })
   let kept := if op.skipUnmatched then nodes.filter (fun n => n.snippet.isSome || n.important) else nodes
@@ -465,5 +481,9 @@ def expandStylesheet (abbr : Str) (tbl : List (Str × Str)) (op : SOpts) : Excep
     out ← cssProperty op n out
     i := i + 1
   return out.buf
+
+def expandStylesheet (abbr : Str) (tbl : List (Str × Str)) (op : SOpts) : Except Err Str := do
+  let sn ← convertSnippets tbl
+  expandStylesheetPre abbr sn op
 
 end CA
